@@ -32,6 +32,7 @@ import (
 	"github.com/semihalev/sdns/internal/ecs"
 	"github.com/semihalev/sdns/internal/verif/vlib"
 	"github.com/semihalev/sdns/middleware"
+	"github.com/semihalev/sdns/middleware/as112"
 	"github.com/semihalev/sdns/middleware/cache"
 	"github.com/semihalev/sdns/middleware/edns"
 	"github.com/semihalev/sdns/middleware/recovery"
@@ -680,6 +681,57 @@ func exec(op string) vlib.Res {
 		impl := sortOptions(curCfg.ctx().absReply(w.msg, orig))
 		or := judgeHinted("edns/hitchase-"+proto, entryKind{proto: proto}, curCfg.deploy(), raw, w.raw, aR{})
 		return vlib.Res{Impl: impl, Oracle: or, Tags: "nt,hitchase,wire-chase-composed"}
+
+	case "edns as112":
+		// the real AS112 handler behind the real recovery+edns, for a private reverse name
+		path, proto := f[2], f[3]
+		q := parseQ(f[4])
+		raw := rawQuery(q)
+		orig := new(dns.Msg)
+		if err := orig.Unpack(raw); err != nil {
+			return vlib.Res{Impl: "undecodable"}
+		}
+		w := newCapW(proto)
+		missed := false
+		terminal := middleware.HandlerFunc(func(_ context.Context, ch *middleware.Chain) {
+			missed = true
+			ch.Cancel()
+		})
+		ch := middleware.NewChain([]middleware.Handler{recovery.New(curCfg.config()), curEDNS, as112.New(curCfg.config()), terminal})
+		var rq middleware.Request
+		wire := false
+		if path == "w" && rq.ParseWire(raw, time.Now(), nil) {
+			ch.ResetWire(w, &rq)
+			wire = true
+		} else {
+			req := new(dns.Msg)
+			_ = req.Unpack(raw)
+			ch.Reset(w, req)
+		}
+		ch.Next(context.Background())
+		ch.Finish()
+		if missed {
+			return vlib.Res{Impl: "passed-on", Oracle: "-"}
+		}
+		impl := curCfg.ctx().absReply(w.msg, orig)
+		or := "-"
+		if w.msg != nil {
+			if packed, err := packReply(w.msg); err == nil {
+				jp := map[string]string{"doq": "doq-noid"}[proto]
+				if jp == "" {
+					jp = proto
+				}
+				or = judgeHinted("edns/as112-"+proto, entryKind{proto: jp}, curCfg.deploy(), raw, packed, aR{})
+			}
+		}
+		tags := "nt,as112"
+		if wire {
+			tags += ",wireborn"
+		}
+		if q.qclass > 1 {
+			tags += ",class-not-in"
+		}
+		return vlib.Res{Impl: impl, Oracle: or, Tags: tags}
 
 	case "edns failover":
 		ensureFallbacks()
